@@ -132,14 +132,24 @@ FLOORS = {'quick': {'nontrivial': 50000,
                                  'archlist:mixed:neg-then-plain': 7900, 'archlist:mixed:plain-then-neg': 7900,
                                  'archlist:mixed:alternating': 13900, 'archlist:mixed:irregular': 2800}},
           'thorough': {'nontrivial': 1100000,
-                       'monitors': {'M': 1100000, 'M.idem': 1100000, 'M.hist': 200000, 'M.deb822': 150000},
+                       'monitors': {'M': 1100000, 'M.idem': 1100000, 'M.hist': 200000, 'M.deb822': 150000,
+                                    'M.order': 1050000},
                        'counters': {'flavour:rt': 1000000, 'flavour:hist': 100000, 'flavour:deb822': 40000,
                                     'deb822:Packages': 20000, 'deb822:Sources': 20000,
                                     'deb822:init:text': 9000, 'deb822:init:lines': 9000, 'deb822:init:dict': 9000,
                                     'deb822:init:iter': 9000,
-                                    'hist:mut:arch': 60000, 'hist:mut:term': 60000}}}
+                                    'hist:mut:arch': 60000, 'hist:mut:term': 60000,
+                                    'keyorder:canonical': 5100000, 'keyorder:permuted': 4900000,
+                                    'keyorder:name-not-first': 3700000,
+                                    'keyorder:via:insert': 1100000, 'keyorder:via:move': 1100000,
+                                    'keyorder:via:comp': 550000, 'keyorder:via:fromkeys': 550000,
+                                    'keyorder:via:sorted': 550000, 'keyorder:via:rsorted': 550000,
+                                    'keyorder:via:reversed': 550000, 'keyorder:via:copy': 550000,
+                                    'archlist:plain': 1500000, 'archlist:negated': 1500000,
+                                    'archlist:mixed:neg-then-plain': 240000, 'archlist:mixed:plain-then-neg': 240000,
+                                    'archlist:mixed:alternating': 420000, 'archlist:mixed:irregular': 109000}}}
 SHAPE_FLOOR = {'quick': 1800, 'thorough': 55000}           # per shape, over the whole run
-KSHAPE_FLOOR = {'quick': 875, 'thorough': 1}               # per shape with a permuted key order
+KSHAPE_FLOOR = {'quick': 875, 'thorough': 27000}             # per shape with a permuted key order
 
 LOWER = 'abcdefghijklmnopqrstuvwxyz'
 DIGITS = '0123456789'
